@@ -269,6 +269,10 @@ def classify19(sc, reason, obs):
         kind = ("wf-branch-target-also-data-successor" if b.get("bdata") else
                 "wf-branch-target-without-data-input" if b.get("bnone") else "wf-branch-routed-copy-without-data-successor")
         return "%s:%s/%s" % (reason, frame, kind)
+    if len(sc["branch"]) >= 2:
+        picks = [b["ends"][b["pick"]] for b in sc["branch"]]
+        same = len(set(picks)) < len(picks)
+        return "%s:%s/%s+%dbranches%s" % (reason, frame, sc["mode"], len(picks), "-selecting-the-same-target" if same else "")
     return "%s:%s/%s%s" % (reason, frame, sc["mode"], "+branch" if sc["branch"] else "")
 
 
@@ -318,8 +322,11 @@ def c19(tier, repo=None):
         # stratified slice: half of it scenarios with a stream branch (the rarer, richer family)
         def src_streams(x):
             return x["kinds"][x["nodes"].index(x["branch"][0]["from"])] != "V"
-        withb = ([x for x in fam if x["branch"] and src_streams(x)] + [x for x in fam if x["branch"] and not src_streams(x)])[:P["per_mode"] // 2]
-        scs += withb + [x for x in fam if not x["branch"]][:P["per_mode"] - len(withb)]
+        one = [x for x in fam if len(x["branch"]) == 1]
+        multi = [x for x in fam if len(x["branch"]) >= 2]           # several branches on one node (overlapping end sets)
+        multi = ([x for x in multi if src_streams(x)] + [x for x in multi if not src_streams(x)])[:P["per_mode"] // 8]
+        withb = multi + ([x for x in one if src_streams(x)] + [x for x in one if not src_streams(x)])[:P["per_mode"] // 2 - len(multi) // 2]
+        scs += withb + [x for x in fam if not x["branch"]][:max(0, P["per_mode"] - len(withb))]
     for mode, n, me in P["sim"]:
         fam, run = streams.gen_run_shapes(mode, n, me, simulate="num=400", depth=14, seed=vlib.SEED)
         gen_states += run.generated
